@@ -25,6 +25,8 @@
 #include <sys/mman.h>
 #include <sys/wait.h>
 #include <sys/stat.h>
+#include <poll.h>
+#include <errno.h>
 #include <stdarg.h>
 
 namespace vf {
@@ -200,14 +202,17 @@ inline Fate forked(const std::function<void()> &fn, double timeout_s = 60.0, boo
     }
     close(pd[1]); close(pe[1]);
     std::string buf, err; char tmp[4096]; ssize_t r;
-    // drain both pipes (data first; stderr is small)
-    fcntl(pe[0], F_SETFL, O_NONBLOCK);
-    while ((r = read(pd[0], tmp, sizeof tmp)) > 0) { buf.append(tmp, r); ssize_t q; while ((q = read(pe[0], tmp, sizeof tmp)) > 0) { err.append(tmp, q); if (err.size() > 65536) err.erase(0, err.size() - 32768); } }
-    close(pd[0]);
+    // drain both pipes concurrently (a child that floods stderr must not block against a full pipe)
+    struct pollfd pf[2] = {{pd[0], POLLIN, 0}, {pe[0], POLLIN, 0}}; int open_fds = 2;
+    while (open_fds > 0) {
+        int pr = poll(pf, 2, -1); if (pr < 0) { if (errno == EINTR) continue; break; }
+        for (int q = 0; q < 2; q++) if (pf[q].fd >= 0 && (pf[q].revents & (POLLIN | POLLHUP | POLLERR))) {
+            r = read(pf[q].fd, tmp, sizeof tmp);
+            if (r > 0) { if (q == 0) buf.append(tmp, r); else { err.append(tmp, r); if (err.size() > 65536) err.erase(4096, err.size() - 36864); } }
+            else { close(pf[q].fd); pf[q].fd = -1; open_fds--; }
+        }
+    }
     int st = 0; waitpid(pid, &st, 0);
-    fcntl(pe[0], F_SETFL, 0);
-    while ((r = read(pe[0], tmp, sizeof tmp)) > 0) { err.append(tmp, r); if (err.size() > 65536) err.erase(0, err.size() - 32768); }
-    close(pe[0]);
     absorb(buf);
     Fate f; f.text = err.size() > 1500 ? err.substr(0, 1500) : err;
     if (WIFSIGNALED(st)) { f.kind = WTERMSIG(st) == SIGALRM ? Fate::TIMEOUT : Fate::SIGNALED; f.code = WTERMSIG(st); }
